@@ -914,6 +914,25 @@ def acmd_family(seed, n, maxlen=5, budget=8000):
     return out
 
 
+def acmd_ftu_family(seed, n, maxlen=4, budget=5000):
+    """adjacent subcommands with `fallback_to_usage`: the bare name prints the command's usage, the name followed by
+    something the command cannot use is an ordinary failure"""
+    out = []
+    for i in range(n):
+        wrap = ["one", "opt", "many"][i % 3]
+        g = adjf("g0", wrap, cmdhead("h0", "sleep"), ar("w", "one", "int", "--time"), *([sw("q", "-q")] if i % 2 else []))
+        g["head"]["ftu"] = True
+        before = [sw("o1", "-v")] if i % 4 < 2 else []
+        after = [sw("o3", "-z")] if (wrap == "many" and i % 2) else []
+        tail = postail(pos("p0", "opt")) if (i % 5 == 4 and not after) else NOTAIL
+        d = mkdef(f"acmdftu{seed}_{i}", level(before + [g] + after, tail), maxlen=maxlen, extras=("unk",) if i % 3 == 0 else (),
+                  spells=("sep",), words=("sleep", "1"))
+        galpha_trim(d, budget)
+        d["alpha"]["words"] = list(dict.fromkeys(["sleep"] + d["alpha"]["words"]))
+        out.append(d)
+    return out
+
+
 def tree_group_family(seed, n, maxlen=4, budget=6000, kinds=("alt", "adj", "acmd")):
     """subcommands whose own level has choices / adjacent groups / adjacent subcommands (TreeLine.tla)"""
     rnd = random.Random(seed)
@@ -1178,6 +1197,22 @@ def gguard_family(seed, n, maxlen=4, budget=5000):
         galpha_trim(d, budget)
         d["alpha"]["words"] = ["1", "2"]
         d["alpha"]["eqvals"] = ["1", "2"]
+        out.append(d)
+    return out
+
+
+def cmdcluster_family(seed, n, maxlen=2):
+    """bundles and glued values inside subcommands other than the first one of their level (the short names every command
+    declares are known to the tokeniser, not only those of the first) - small alphabets by construction"""
+    out = []
+    for i in range(n):
+        first = level([sw("a0", "-a"), sw("a1", "-b")], NOTAIL)
+        second = level([sw("f0", "-f"), rf("f1", "count", "-q"), ar("f2", ["opt", "one", "many"][i % 3], "str", "-r")],
+                       NOTAIL if i % 2 else postail(pos("sp", "opt")))
+        third = level([sw("t0", "-t"), sw("t1", "-u")], NOTAIL)
+        cmds = [cmd("first", first), cmd(["push", "p2"], second)] + ([cmd("third", third)] if i % 2 else [])
+        root = level([sw("r0", "-v")] if i % 3 == 0 else [], cmdtail(cmds, optional=(i % 4 == 3)))
+        d = mkdef(f"cmdcl{seed}_{i}", root, maxlen=maxlen, extras=(), spells=("sep", "glued"), words=("x",), clusters=True)
         out.append(d)
     return out
 
